@@ -46,6 +46,9 @@ func expandC11(_ *testing.T, seed uint64, tier string) []*core.Plan {
 			it := core.Item{K: "connect", P: s, S: cid, A: b2i(clean)}
 			if r.Chance(1, 3) {
 				it.C = 1 + r.Intn(3) + 3*r.Intn(2) // will: qos + retain
+				if r.Chance(1, 5) {
+					it.C += 6 // ... with an empty payload
+				}
 				it.L = []int{indexOfTopic(topics[r.Intn(nt)])}
 			}
 			p.Items = append(p.Items, it)
@@ -71,11 +74,13 @@ func expandC11(_ *testing.T, seed uint64, tier string) []*core.Plan {
 		case 2:
 			tag++
 			it := core.Item{K: "pub", P: s, S: topics[r.Intn(nt)], A: r.Intn(3), C: r.Pick(0, 0, 5, 40), D: tag}
-			switch r.Weighted([]int{4, 6, 2}) {
+			switch r.Weighted([]int{4, 6, 2, 1}) {
 			case 1:
 				it.B = 1 // retained
 			case 2:
 				it.B = 2 // retained, empty payload: clears
+			case 3:
+				it.B = 3 // empty payload without the flag: changes nothing
 			}
 			p.Items = append(p.Items, it)
 		case 3:
